@@ -409,8 +409,10 @@ func checkWindow(pl *pool, win *ssa.Function) {
 							}
 							again := false
 							for _, lt := range l.Latch {
-								if wcs.Satisfiable(and(fire, wcs.ReachBlock(lt))) {
-									again = true
+								for bi, sb := range lt.Succs {
+									if sb == l.Header && wcs.Satisfiable(and(fire, wcs.EdgeCond(lt, bi))) {
+										again = true
+									}
 								}
 							}
 							guarded = !again
